@@ -108,6 +108,8 @@ const customErrLevel = 13   // registered with RegWithPrintToErrorDevice
 const customPlainLevel = 14 // registered without
 const customAsInfoErr = 15  // treated as Info AND registered for the error device: error class
 const customAsErrPlain = 16 // treated as Error, not registered for the error device: normal class
+const customNegPlain = -2   // a negative value, not registered for the error device: normal class
+const customNegErr = -5     // a negative value registered for the error device
 
 func c03Probe1(e *slog.Entry, lvl int) (p c03Probe) { return c03ProbeMsg(e, lvl, "probe") }
 
@@ -168,9 +170,11 @@ func c03One(r *Run, snap *slog.VerifRegistry, ops []WOp, asOptions bool, kind st
 	_ = slog.RegisterLevel(slog.Level(customPlainLevel), "c03plain", slog.RegWithPrintToErrorDevice(false))
 	_ = slog.RegisterLevel(slog.Level(customAsInfoErr), "c03infoerr", slog.RegWithTreatedAsLevel(slog.InfoLevel), slog.RegWithPrintToErrorDevice(true))
 	_ = slog.RegisterLevel(slog.Level(customAsErrPlain), "c03errplain", slog.RegWithTreatedAsLevel(slog.ErrorLevel))
+	_ = slog.RegisterLevel(slog.Level(customNegPlain), "c03negplain")
+	_ = slog.RegisterLevel(slog.Level(customNegErr), "c03negerr", slog.RegWithPrintToErrorDevice(true))
 	// the error class per the statement: Panic, Fatal, Error, Warn, Fail and the custom levels
 	// REGISTERED for the error device (not whatever the implementation's table says)
-	errdev := map[int]bool{0: true, 1: true, 2: true, 3: true, 11: true, customErrLevel: true, customAsInfoErr: true}
+	errdev := map[int]bool{0: true, 1: true, 2: true, 3: true, 11: true, customErrLevel: true, customAsInfoErr: true, customNegErr: true}
 	var errdevList []int
 	for l := range errdev {
 		errdevList = append(errdevList, l)
@@ -208,7 +212,7 @@ func c03One(r *Run, snap *slog.VerifRegistry, ops []WOp, asOptions bool, kind st
 	}
 	e.SetLevel(slog.AlwaysLevel).SetColorMode(false)
 	var probes []string
-	for _, lvl := range []int{4, 2, 3, 5, 9, 11, 0, customErrLevel, customPlainLevel, customAsInfoErr, customAsErrPlain, 7} {
+	for _, lvl := range []int{4, 2, 3, 5, 9, 11, 0, customErrLevel, customPlainLevel, customAsInfoErr, customAsErrPlain, customNegPlain, customNegErr, 7} {
 		p := c03Probe1(e, lvl)
 		exp := spec.route(errdev, lvl)
 		if lvl == 7 {
